@@ -9,12 +9,42 @@ open Verif.Model.JsNumber.JsNumberDec (number decStr natOf)
 
 /-- what the property asks of the printed literal -/
 def Good (s t : List Char) : Prop :=
-  isNumericLiteral t = true ∧ mathValue t = mathValue s ∧ isBigIntLit t = isBigIntLit s
+  isNumericLiteral t = true ∧ mathValue t = mathValue s ∧ isBigIntLit t = isBigIntLit s ∧
+  isLegacyLike t = false ∧ ∀ c ∈ t, c ≠ '_'
+
+theorem plain_noSep (l : DLex) (h : l.Plain) : ∀ c ∈ l.str, c ≠ '_' := by
+  intro c hc
+  have hdig : ∀ x : Char, x.isDigit = true → x ≠ '_' := fun x hx => digit_ne hx (by decide)
+  unfold DLex.str at hc
+  rcases List.mem_append.mp hc with hc | hc
+  · exact hdig c (h.ip c hc)
+  · rcases List.mem_append.mp hc with hc | hc
+    · unfold DLex.dotPart at hc
+      split at hc
+      · cases hc
+      · rename_i f hf
+        rcases List.mem_cons.mp hc with e | e
+        · rw [e]; decide
+        · exact hdig c (h.fp f hf c e)
+    · unfold DLex.exPart at hc
+      split at hc
+      · cases hc
+      · rename_i c' sg d hex
+        obtain ⟨h1, h2, h3, _⟩ := h.ex _ _ _ hex
+        rcases List.mem_cons.mp hc with e | e
+        · rw [e]; rcases h1 with e1 | e1 <;> rw [e1] <;> decide
+        · rcases List.mem_append.mp e with e | e
+          · rcases h2 with s | s | s <;> subst s
+            · cases e
+            · simp at e; rw [e]; decide
+            · simp at e; rw [e]; decide
+          · exact hdig c (h3 c e)
 
 /-- a plain, non-legacy lexeme as a printed literal -/
 theorem good_of_plain {s : List Char} (l' : DLex) (h : l'.Plain) (hnl : isLegacyLike l'.str = false)
     (hv : l'.val = mathValue s) (hb : isBigIntLit s = false) : Good s l'.str :=
-  ⟨isNumericLiteral_str l' h hnl, by rw [mathValue_str l' h.shape hnl, hv], by rw [isBigIntLit_str l' h.shape, hb]⟩
+  ⟨isNumericLiteral_str l' h hnl, by rw [mathValue_str l' h.shape hnl, hv], by rw [isBigIntLit_str l' h.shape, hb],
+    hnl, plain_noSep l' h⟩
 
 def dfltTok (s : List Char) : Tok :=
   if s.any (fun c => c == '.' || c == 'e' || c == 'E') then .decimal else .integer
